@@ -110,8 +110,9 @@ def run_case(case, tier):
         ghosts = [g for g in ghosts if g not in res]
     text = pdbio.dump(recs)
     arg = ",".join(util.res_arg(r) for r in L + ghosts)
-    free = obs.run_single(text)
-    lim = obs.run_single(text, ["-i", arg])
+    xo = util.neutral_options(rng, families=("display", "grid", "protonation", "keep"), classes=classes)
+    free = obs.run_single(text, xo)
+    lim = obs.run_single(text, ["-i", arg] + xo)
     counts["pipeline_runs"] = 2
     desc.update({"atoms": len(pdbio.atoms(recs)), "residues": len(res), "listed": len(L), "ghosts": len(ghosts),
                  "arg_head": arg[:60], "exc": lim.exc})
@@ -190,7 +191,7 @@ def run_case(case, tier):
             viol.append({"cls": "all-residues-differs-from-no-option", "msg": obs.brief(diffs, 4)})
     # (e) ghosts have no effect
     if ghosts:
-        plain = obs.run_single(text, ["-i", ",".join(util.res_arg(r) for r in L)])
+        plain = obs.run_single(text, ["-i", ",".join(util.res_arg(r) for r in L)] + xo)
         counts["pipeline_runs"] += 1
         counts["ghost_comparisons"] = counts.get("ghost_comparisons", 0) + 1
         diffs = obs.compare_runs(plain, lim, tol=0.0, text=True)
